@@ -393,6 +393,33 @@ def u_compact(root):
     return eng
 
 
+def u_multi_refresh(root):
+    """MultiFit._update_parameter_formatters (what MultiFit.report / plots call before printing): when asymmetric uncertainties are asked for, the multi-fit computes ITS asymmetric
+    uncertainties first (that pushes them to the members), and only then every member refreshes its formatters, with the same flag"""
+    from . import c03
+    Part, Val, Fn = c03.Part, c03.Val, c03.Fn
+    eng = engine(root, ["kafe2/fit/multi/fit.py", "kafe2/fit/_base/fit.py"], {"MultiFit": {"_fits": PYOBJ}}, [])
+    mk(eng, "MultiFit", "asymmetric_parameter_errors", "getter", result=lambda vw: (c03.log(vw.post, "multi_asymmetric_errors_computed"), Val("asym"))[1])
+    for asked in (True, False):
+        c = Contract("MultiFit", "_update_parameter_formatters")
+
+        def post(vw, asked=asked):
+            tr = list(vw.post.ghost.get("fx", ()))
+            upd = [(q_, x) for q_, x in enumerate(tr) if x[0] == "call" and x[2] == "_update_parameter_formatters"]
+            comp = [q_ for q_, x in enumerate(tr) if x[0] == "multi_asymmetric_errors_computed"]
+            flags = [x[4].get("update_asymmetric_errors") for _, x in upd]
+            out = [("every member refreshes its formatters, in order, with the flag the multi-fit was given", z3.BoolVal(vw.flow != "raise" and [x[1] for _, x in upd] == ["member0", "member1"] and all(isinstance(f_, VBool) and z3.is_true(z3.simplify(f_.e)) == asked for f_ in flags)))]
+            if asked:
+                out.append(("the multi-fit's asymmetric uncertainties are computed BEFORE any member refreshes (the members only hold what the multi-fit pushed to them)", z3.BoolVal(len(comp) >= 1 and bool(upd) and comp[0] < upd[0][0])))
+            return out
+        c.ensures.append(post)
+        eng.verify("MultiFit", "_update_parameter_formatters", None,
+                   lambda e, st, me_, asked=asked: (e.write_field(st, me_, "_fits", VTuple([Part("member0", {"_update_parameter_formatters": Fn(lambda e_, st_, a, kw: VNone())}), Part("member1", {"_update_parameter_formatters": Fn(lambda e_, st_, a, kw: VNone())})])),
+                                                    {"update_asymmetric_errors": VBool(z3.BoolVal(asked))})[1], contract=c, tag=f"[asymmetric uncertainties asked for: {asked}]")
+    return eng
+
+
 def units(root):
     return [Unit("ScalarFormatter.__init__ / __call__", u_scalar), Unit("rounding lemma", u_lemma), Unit("ParameterFormatter.get_formatted", u_parameter), Unit("formatters follow the fit (refresh, fixed marks)", u_refresh),
+            Unit("MultiFit refreshes its members' formatters after computing its own asymmetric uncertainties", u_multi_refresh, bounded="two member fits (recording stand-ins)"),
             Unit("get_compact_representation: decimals of the summary table", u_compact, bounded="2 parameters (the table loop is unrolled); values, uncertainties and asymmetric uncertainties symbolic reals")]
